@@ -4,7 +4,10 @@ package main
 // End-to-end through jpeg2000.NewEncoder(params with TileWidth/TileHeight).Encode → NewDecoder().Decode.
 
 import (
+	"bytes"
 	"fmt"
+
+	"github.com/cocosip/go-dicom-codecs/jpeg2000"
 
 	"verifharness/internal/hx"
 )
@@ -198,6 +201,7 @@ func c19Run(c *hx.Ctx) {
 	c.Rule = "an evaluation = one tiled Encoder.Encode→Decoder.Decode round trip through the public API compared byte for byte; non-trivial when the grid has >= 2 tiles; distinct by (configuration, first 64 content bytes)"
 	r := c.R
 	c19Correspondence(c)
+	c19OffsetSweep(c)
 
 	mk := func(w, h, tw, th, comps, p, lv, ly int) c04Cfg {
 		return c04Cfg{W: w, H: h, C: comps, P: p, Levels: lv, CBW: 16, CBH: 16, Layers: ly, MCT: true, TW: tw, TH: th}
@@ -321,5 +325,153 @@ func c19Run(c *hx.Ctx) {
 			k := mk(w, h, tw, th, r.Pick([]int{1, 3}), r.Pick([]int{8, 12, 16}), r.Range(0, 5), r.Range(1, 3))
 			c19Eval(c, k, c04Samples(r, k, 0), "random-large")
 		}
+	}
+}
+
+// c19RewriteSIZ moves the image of a codestream written at origin 0 to the reference-grid offset (ox, oy):
+// Xsiz/Ysiz grow by the offset, XOsiz/YOsiz are set; the tile grid either moves along (XTOsiz/YTOsiz = offset)
+// or stays anchored at 0 with the single tile widened to cover the image (XTsiz += ox, YTsiz += oy).
+// The result is a valid codestream for the same samples iff the geometry the decoder derives is the geometry the
+// encoder used, i.e. when the offset is a multiple of 2^levels (same split parities) [and, before patch 0004, of
+// the precinct size at every resolution].
+func c19RewriteSIZ(cs []byte, ox, oy int, moveTileGrid bool) []byte {
+	out := append([]byte(nil), cs...)
+	if len(out) < 40 || out[2] != 0xFF || out[3] != 0x51 {
+		return out
+	}
+	g := func(o int) int { return int(out[o])<<24 | int(out[o+1])<<16 | int(out[o+2])<<8 | int(out[o+3]) }
+	p := func(o, v int) { out[o], out[o+1], out[o+2], out[o+3] = byte(v>>24), byte(v>>16), byte(v>>8), byte(v) }
+	p(8, g(8)+ox)
+	p(12, g(12)+oy)
+	p(16, ox)
+	p(20, oy)
+	if moveTileGrid {
+		p(32, ox)
+		p(36, oy)
+	} else {
+		p(24, g(24)+ox)
+		p(28, g(28)+oy)
+	}
+	return out
+}
+
+// c19OffsetEval: encoder output at origin 0, SIZ rewritten to an image offset, decoded through the public API.
+func c19OffsetEval(c *hx.Ctx, k c04Cfg, ox, oy int, moveGrid bool, tag string) {
+	s := c04Samples(c.R, k, 0)
+	pix := c04Container(k, s)
+	var cs []byte
+	var err error
+	if p, _ := hx.Guard(func() { cs, err = jpeg2000.NewEncoder(k.params()).Encode(pix) }); p || err != nil {
+		c.Count("offset:encode-failed")
+		return
+	}
+	rw := c19RewriteSIZ(cs, ox, oy, moveGrid)
+	d := jpeg2000.NewDecoder()
+	oc, detail := "ok", ""
+	var out []byte
+	p, msg := hx.Guard(func() {
+		if e := d.Decode(rw); e != nil {
+			oc, detail = "dec-err", e.Error()
+			return
+		}
+		out = d.GetPixelData()
+	})
+	switch {
+	case p:
+		oc, detail = "dec-panic", msg
+	case oc == "ok" && (d.Width() != k.W || d.Height() != k.H):
+		oc, detail = "meta", fmt.Sprintf("decoder reports %dx%d", d.Width(), d.Height())
+	case oc == "ok" && !bytes.Equal(out, pix):
+		oc, detail = "mismatch", "decoded samples differ"
+	}
+	c.Eval(fmt.Sprintf("offset|%s|%d|%d|%v|%s", k.String(), ox, oy, moveGrid, hx.Hex(pix[:min(len(pix), 32)])), true)
+	c.Count("outcome:" + oc)
+	c.Count(tag)
+	if oc == "ok" {
+		return
+	}
+	// expected-correct since fix 3981d09 (code-block grid index relative to the band's first block in the precinct):
+	// every offset that keeps the split parities (multiple of 2^levels) and the precinct partition (multiple of the
+	// precinct size at every resolution, or no precinct boundary inside the image) — nothing here is a known class
+	class, what := "j2k-image-offset-"+oc, "SIZ-rewritten encoder output at an image offset (multiple of 2^levels, same precinct partition) does not decode to the source"
+	in := k.input(pix)
+	in["XOsiz"], in["YOsiz"], in["tileGridMoved"] = ox, oy, moveGrid
+	c04Fail(c, hx.Failure{Class: class, What: what, Input: in, Expected: "decoded samples == source samples, same extent", Actual: oc + ": " + detail})
+}
+
+// c19OffsetSweep: image offsets on the reference grid (the encoder cannot produce them; the SIZ segment of its
+// output is rewritten). Offsets are multiples of 2^levels so that the split parities of the tile are unchanged.
+func c19OffsetSweep(c *hx.Ctx) {
+	r := c.R
+	mk := func(w, h, tw, th, lv, ly int) c04Cfg {
+		return c04Cfg{W: w, H: h, C: r.Pick([]int{1, 3}), P: r.Pick([]int{8, 12}), Levels: lv, CBW: r.Pick([]int{8, 64}), CBH: r.Pick([]int{8, 64}),
+			Layers: ly, MCT: true, TW: tw, TH: th, Prog: r.Range(0, 4)}
+	}
+	// (a) offsets that are multiples of the default precinct size at every resolution: exact on every tree
+	for _, m := range [][2]int{{1, 0}, {0, 1}, {1, 1}, {2, 3}, {5, 1}} {
+		for lv := 0; lv <= 4; lv++ {
+			off := [2]int{m[0] * (32768 << uint(lv)), m[1] * (32768 << uint(lv))}
+			for _, tiled := range []bool{false, true} {
+				k := mk(r.Range(9, 40), r.Range(9, 40), 0, 0, lv, r.Pick([]int{1, 2}))
+				if tiled {
+					k.TW, k.TH = 8<<uint(lv%2), 8
+				}
+				// single tile: both anchorings of the tile grid; tiled: the grid moves with the image
+				c19OffsetEval(c, k, off[0], off[1], true, "image-offset:precinct-aligned")
+				if !tiled {
+					// XTOsiz = 0 < XOsiz with the tile widened to cover the image (tile rectangle must be
+					// clipped to [XOsiz, Xsiz) x [YOsiz, Ysiz))
+					c19OffsetEval(c, k, off[0], off[1], false, "image-offset:precinct-aligned-tilegrid-at-0")
+				}
+			}
+		}
+	}
+	// (b) offsets that are multiples of 2^levels only (fixed by 3981d09: before it these decoded with err=nil and
+	// wrong samples, with tag-tree grids quadratic in the offset)
+	for _, off := range [][2]int{{64, 64}, {1000, 0}, {0, 2048}, {4096, 4096}, {16384, 64}, {48, 80}} {
+		for lv := 0; lv <= 3; lv++ {
+			for _, tiled := range []bool{false, true} {
+				k := mk(r.Range(9, 32), r.Range(9, 32), 0, 0, lv, 1)
+				if tiled {
+					k.TW, k.TH = 8, 16
+				}
+				ox, oy := off[0]>>uint(lv)<<uint(lv), off[1]>>uint(lv)<<uint(lv)
+				c19OffsetEval(c, k, ox, oy, true, "image-offset:level-aligned")
+				if !tiled {
+					c19OffsetEval(c, k, ox, oy, false, "image-offset:level-aligned-tilegrid-at-0")
+				}
+			}
+		}
+	}
+	c19OffsetRandom(c, true)
+}
+
+// c19OffsetRandom: random offsets m*2^levels below the first default-precinct boundary (so the image lies in one
+// precinct at every resolution, as at origin 0), and custom precincts with offsets that are multiples of the
+// precinct size at every resolution; all expected-correct. tiled=false restricts to single-tile streams (C04).
+func c19OffsetRandom(c *hx.Ctx, tiled bool) {
+	r := c.R
+	n := 24
+	if c.Thorough() {
+		n = 160
+	}
+	for i := 0; i < n; i++ {
+		lv := r.Range(0, 5)
+		k := c04Cfg{W: r.Range(1, 48), H: r.Range(1, 48), C: r.Pick([]int{1, 3}), P: r.Pick([]int{8, 12, 16}), Levels: lv,
+			CBW: r.Pick([]int{4, 8, 16, 64}), CBH: r.Pick([]int{4, 8, 16, 64}), Layers: r.Pick([]int{1, 1, 2, 3}), MCT: true, Prog: r.Range(0, 4)}
+		k.Signed = r.Intn(4) == 0
+		if tiled && r.Intn(2) == 0 {
+			k.TW, k.TH = r.Range(max(1, k.W/4), k.W), r.Range(max(1, k.H/4), k.H)
+		}
+		ox, oy := r.Range(0, 30000>>uint(lv))<<uint(lv), r.Range(0, 30000>>uint(lv))<<uint(lv)
+		tag := "image-offset:random-level-aligned"
+		if r.Intn(3) == 0 {
+			// custom precincts: offset must keep the canvas precinct partition at every resolution
+			k.PW, k.PH = 1<<uint(r.Range(5, 8)), 1<<uint(r.Range(5, 8))
+			k.CBW, k.CBH = min(k.CBW, 16), min(k.CBH, 16)
+			ox, oy = r.Range(0, 6)*(k.PW<<uint(lv)), r.Range(0, 6)*(k.PH<<uint(lv))
+			tag = "image-offset:random-custom-precinct-aligned"
+		}
+		c19OffsetEval(c, k, ox, oy, k.TW != 0 || r.Intn(2) == 0, tag)
 	}
 }
